@@ -179,6 +179,10 @@ def _case(draw):
         case['old_list'] = [[i + 1, draw(st.sampled_from([0, 0, 1]))] for i in range(n_old)]
         case['new_list'] = [10 + i for i in range(draw(st.integers(0, 5)))]
         case['via'] = draw(st.sampled_from(['list', 'list', 'delmap'])) if path else 'list'
+        # some of the newer elements are !weak: they lose against any older element at their index, and stand where nothing stood
+        case['new_weak'] = sorted(draw(st.sets(st.integers(0, 5), max_size=2))) if draw(st.integers(0, 2)) == 0 else []
+        # the older elements may also be !weak (they never survive; a weak newer element at the same index is the later among equals)
+        case['old_weak'] = sorted(draw(st.sets(st.integers(0, 3), max_size=2))) if draw(st.integers(0, 3)) == 0 else []
         return case
     if mode in ('a', 'b'):
         # the focus must be a mapping when it sits at depth 0 (a document root is a mapping)
@@ -675,8 +679,12 @@ def _run_e(case, labels):
     path, old_list, new_list, via = case['path'], case['old_list'], case['new_list'], case['via']
     older = copy.deepcopy(case['older'])
     holder = _get(older, path)
-    holder['items'] = [it for it in holder['items'] if it[0] != 'L'] + [['L', tdoc.sq([tdoc.sc(v, **({'prio': 1} if p else {})) for v, p in old_list], flow=True)]]
-    lst = tdoc.sq([tdoc.sc(v) for v in new_list], flow=True)
+    new_weak = set(case.get('new_weak', []))
+    old_weak = set(i for i in case.get('old_weak', []) if i < len(old_list) and not old_list[i][1])
+    old_list = [[v, (-1 if i in old_weak else p)] for i, (v, p) in enumerate(old_list)]
+    holder['items'] = [it for it in holder['items'] if it[0] != 'L'] + [['L', tdoc.sq([tdoc.sc(v, **({'prio': p, 'mdstyle': 'short'} if p else {})) for v, p in old_list], flow=True)]]
+    lst = tdoc.sq([tdoc.sc(v, **({'prio': -1, 'mdstyle': 'short'} if i in new_weak else {})) for i, v in enumerate(new_list)], flow=True)
+    new_prio = [(-1 if i in new_weak else 0) for i in range(len(new_list))]
     if via == 'list':
         newer = _wrap(path + ['L'], lst)
     else:
@@ -689,8 +697,8 @@ def _run_e(case, labels):
     if status != 'ok':
         raise Violation(f'C04e: build failed: {type(got).__name__}: {got}{src}')
     old_ev = ev(older)
-    protected = [v for v, p in old_list if p > 0]
-    must_new = [v for i, v in enumerate(new_list) if not (i < len(old_list) and old_list[i][1] > 0)]
+    protected = [v for i, (v, p) in enumerate(old_list) if p > (new_prio[i] if i < len(new_list) else 0)]
+    must_new = [v for i, v in enumerate(new_list) if not (i < len(old_list) and old_list[i][1] > new_prio[i])]
     may_new = [v for v in new_list if v not in must_new]
     got_at = got
     try:
@@ -703,6 +711,8 @@ def _run_e(case, labels):
     frame_got = replace_at(got, path + ['L'], 'LIST') if got_at is not None else got
     labels.add('e-via-' + via)
     labels.add('e-protected=%d' % min(len(protected), 2))
+    if new_weak & set(range(len(new_list))):
+        labels.add('e-weak-newer-elements')
     nontrivial = bool(protected)
     ok = (isinstance(got_at, list) and O.canon_unordered(frame_got) == O.canon_unordered(frame_expected)
           and all(type(x) is int for x in got_at) and len(set(got_at)) == len(got_at)
@@ -710,7 +720,7 @@ def _run_e(case, labels):
           and set(got_at) <= set(protected) | set(must_new) | set(may_new))
     # ... and since R61 (positions are kept while the lists are merged) also where: index by index the protected older element or else the
     # newer one, then the protected older elements beyond the end of the newer list, in their order
-    exact = [old_list[j][0] if (j < len(old_list) and old_list[j][1] > 0) else new_list[j] for j in range(len(new_list))] + \
+    exact = [old_list[j][0] if (j < len(old_list) and old_list[j][1] > new_prio[j]) else new_list[j] for j in range(len(new_list))] + \
         [v for j, (v, p) in enumerate(old_list) if j >= len(new_list) and p > 0]
     if ok and got_at != exact:
         raise Violation(f'C04e: list {[v for v, _ in old_list]} with !force elements {protected} replaced by {new_list}: every element is there, but not '
